@@ -670,6 +670,32 @@ func L2() []Labeled {
 			}
 		}
 	}
+	// publisher / subscriber declaration orders: the event with a statement body, one or two subscribers,
+	// each before or after the publisher
+	{
+		pub := func(body bool) *App {
+			e := &Endpoint{Kind: "event", Name: "Topic"}
+			if body {
+				e.Stmts = []*Stmt{{Kind: "action", Text: "announce"}, {Kind: "call", Target: []string{"Other"}, Endpoint: "Ep2"}}
+			}
+			return &App{Name: []string{"Pub"}, Eps: []*Endpoint{e}}
+		}
+		sub := func(n string) *App {
+			return &App{Name: []string{n}, Eps: []*Endpoint{{Kind: "subscribe", Source: []string{"Pub"}, Name: "Topic", Stmts: []*Stmt{{Kind: "action", Text: "got it"}}}}}
+		}
+		orders := [][]string{{"P", "S1"}, {"S1", "P"}, {"S1", "P", "S2"}, {"S1", "S2", "P"}, {"P", "S1", "S2"}}
+		for oi, ord := range orders {
+			var apps []*App
+			for _, x := range ord {
+				if x == "P" {
+					apps = append(apps, pub(true))
+				} else {
+					apps = append(apps, sub(x))
+				}
+			}
+			out = append(out, Labeled{fmt.Sprintf("L2/pubsub/%d", oi), &Spec{Apps: append(apps, supportApps()...)}})
+		}
+	}
 	// names pool in every name position
 	for ni, n := range []string{"Plain", "with space", "quo\"te", "co:lon", "Dotted.Name", "Ünï", "x-y", "_lead", "pct%off", "a%41b"} {
 		a := &App{Name: []string{n}, Types: []*TypeDecl{{Kind: "type", Name: "T", Fields: []*Field{{Name: "f", T: prim("int")}}}}}
